@@ -7,6 +7,7 @@
 use std::env;
 use std::process::exit;
 
+mod c05;
 mod c07;
 mod c15;
 mod c20;
@@ -20,7 +21,7 @@ pub struct Family {
 }
 
 fn families() -> Vec<Family> {
-    vec![c20::family(), c15::family(), c07::family()]
+    vec![c20::family(), c15::family(), c07::family(), c05::family()]
 }
 
 pub fn hex(b: &[u8]) -> String {
